@@ -1157,4 +1157,136 @@ theorem client_chat_equiv (parse : Bytes → List Call) (cs : List Chunk) :
     simp only [chatStream, chatChan, endItems]
     rw [client_view_err _ m [] hm]
 
+/-! ## The repaired tool path under the weaker guard it actually needs -/
+
+theorem setIdx_take (i n : Nat) (cs : List Call) : setIdx i (cs.take n) = (setIdx i cs).take n := by
+  induction cs generalizing i n with
+  | nil => simp [setIdx]
+  | cons c cs ih =>
+    cases n with
+    | zero => simp [setIdx]
+    | succ n => simp [setIdx, ih]
+
+theorem setIdx_prefix {q p : List Call} (h : q <+: p) : setIdx 0 q = (setIdx 0 p).take q.length := by
+  have := List.prefix_iff_eq_take.mp h
+  rw [← setIdx_take, ← this]
+
+theorem take_drop_glue {α : Type} (L : List α) (idx q : Nat) (h1 : idx ≤ q) (h2 : q ≤ L.length) :
+    (L.take q).drop idx ++ L.drop q = L.drop idx := by
+  have h : idx ≤ (L.take q).length := by simp; omega
+  rw [← List.drop_append_of_le_length h, List.take_append_drop]
+
+/-- **Guard: `parse` is monotone along the split** — the calls found in the text accumulated at
+    any chunk boundary are a prefix of the calls found in the whole output. -/
+def ParseMonotone (parse : Bytes → List Call) (cs : List Chunk) : Prop :=
+  ∀ k, k < cs.length → parse (texts (cs.take (k + 1))) <+: parse (texts cs)
+
+instance (parse : Bytes → List Call) (cs : List Chunk) : Decidable (ParseMonotone parse cs) := by
+  unfold ParseMonotone; infer_instance
+
+theorem chatCallbackFixed_mono (parse : Bytes → List Call) (P : List Call) (init : List Chunk) (l : Chunk)
+    (sb : Bytes) (idx : Nat) (hnd : NoneDone init) (hl : l.done = true) (hidx : idx ≤ P.length)
+    (hP : parse (sb ++ texts (init ++ [l])) = P)
+    (hg : ∀ k, k < (init ++ [l]).length → parse (sb ++ texts ((init ++ [l]).take (k + 1))) <+: P) (d : ChatMsg) :
+    let ms := chatCallbackFixed parse (init ++ [l]) sb idx
+    aggCalls ms = (setIdx 0 P).drop idx
+    ∧ aggContent ms = (if P.isEmpty && idx == 0 then sb ++ texts (init ++ [l]) else [])
+    ∧ (lastOr d ms).info = chunkInfo l := by
+  induction init generalizing sb idx d with
+  | nil =>
+    simp only [List.nil_append, texts_cons, texts_nil, List.append_nil] at hP
+    simp only [List.nil_append, chatCallbackFixed, hl, hP, texts_cons, texts_nil, List.append_nil]
+    by_cases h : (!P.isEmpty && decide (idx < P.length)) = true
+    · simp only [h, ↓reduceIte]
+      have hne : P.isEmpty = false := by
+        cases hh : P.isEmpty
+        · rfl
+        · simp [hh] at h
+      simp [aggCalls, aggContent, hne]
+    · simp only [h, Bool.false_eq_true, ↓reduceIte]
+      have hd : (setIdx 0 P).drop idx = [] := by
+        apply List.drop_eq_nil_of_le
+        simp only [setIdx_length]
+        cases hh : P.isEmpty
+        · simp [hh] at h; omega
+        · have : P = [] := List.isEmpty_iff.mp hh
+          simp [this]
+      cases hh : P.isEmpty
+      · have : idx = P.length := by simp [hh] at h; omega
+        have hpos : 0 < P.length := by
+          cases hp : P with
+          | nil => simp [hp] at hh
+          | cons _ _ => simp
+        have hz : (idx == 0) = false := by
+          cases hi : idx with
+          | zero => omega
+          | succ n => rfl
+        simp [aggCalls, aggContent, hd, hz]
+      · simp [aggCalls, aggContent, hd]
+  | cons c cs ih =>
+    have hdn : c.done = false := hnd c (by simp)
+    have hnd' : NoneDone cs := fun x hx => hnd x (by simp [hx])
+    have hQ : parse (sb ++ c.content) <+: P := by
+      have := hg 0 (by simp)
+      simpa using this
+    have hP' : parse ((sb ++ c.content) ++ texts (cs ++ [l])) = P := by
+      simpa [List.append_assoc] using hP
+    have hg' : ∀ k, k < (cs ++ [l]).length →
+        parse ((sb ++ c.content) ++ texts ((cs ++ [l]).take (k + 1))) <+: P := by
+      intro k hk
+      have := hg (k + 1) (by simp at hk ⊢; omega)
+      simpa [List.append_assoc] using this
+    have hQlen : (parse (sb ++ c.content)).length ≤ P.length := hQ.length_le
+    simp only [List.cons_append, chatCallbackFixed, hdn]
+    by_cases h : (!(parse (sb ++ c.content)).isEmpty && decide (idx < (parse (sb ++ c.content)).length)) = true
+    · simp only [h, ↓reduceIte]
+      have hlt : idx < (parse (sb ++ c.content)).length := by
+        simp only [Bool.and_eq_true, decide_eq_true_eq] at h; exact h.2
+      obtain ⟨i1, i2, i3⟩ := ih (sb ++ c.content) (parse (sb ++ c.content)).length hnd' hQlen hP' hg'
+        { content := [], calls := List.drop idx (setIdx 0 (parse (sb ++ c.content))), info := chunkInfo c }
+      have hPne : P.isEmpty = false := by
+        cases hp : P with
+        | nil =>
+          have : (parse (sb ++ c.content)).length ≤ 0 := by simpa [hp] using hQlen
+          omega
+        | cons _ _ => rfl
+      refine ⟨?_, ?_, ?_⟩
+      · simp only [aggCalls, List.map_cons, List.flatten_cons] at i1 ⊢
+        rw [i1, setIdx_prefix hQ]
+        exact take_drop_glue _ _ _ (Nat.le_of_lt hlt) (by simpa using hQlen)
+      · simp only [aggContent, List.map_cons, List.flatten_cons, List.nil_append] at i2 ⊢
+        rw [i2]; simp [hPne]
+      · simpa using i3
+    · simp only [h, Bool.false_eq_true, ↓reduceIte]
+      obtain ⟨i1, i2, i3⟩ := ih (sb ++ c.content) idx hnd' hidx hP' hg' d
+      refine ⟨i1, ?_, i3⟩
+      rw [i2]; simp [List.append_assoc]
+
+/-- **F17a/b repaired, under monotonicity only**: with the patched handler, a protocol-respecting run
+    on which `parse` is monotone streams exactly the `stream:false` reply — text, tool calls WITH
+    their indices, reason and counts — whatever the split.  (`PrefixStable` implies nothing here:
+    this guard also covers F17's own input, where a proper prefix parses.) -/
+theorem tools_equiv_fixed_monotone (parse : Bytes → List Call) (init : List Chunk) (l : Chunk)
+    (hnd : NoneDone init) (hl : l.done = true) (hg : ParseMonotone parse (init ++ [l])) :
+    ∃ o, chatOnceV true parse true (init ++ [l]) .ok = .ok o
+      ∧ aggContent (msgsOf (chatStreamV true parse true (init ++ [l]) .ok)) = o.content
+      ∧ aggCalls (msgsOf (chatStreamV true parse true (init ++ [l]) .ok)) = o.calls
+      ∧ (lastOr default (msgsOf (chatStreamV true parse true (init ++ [l]) .ok))).info = o.info := by
+  have hst : msgsOf (chatStreamV true parse true (init ++ [l]) .ok) = chatCallbackFixed parse (init ++ [l]) [] 0 := by
+    simp only [chatStreamV, Bool.and_self, ↓reduceIte]; exact msgsOf_chan _ _
+  obtain ⟨h1, h2, h3⟩ := chatCallbackFixed_mono parse (parse (texts (init ++ [l]))) init l [] 0 hnd hl
+    (Nat.zero_le _) (by simp) (by intro k hk; simpa using hg k hk) default
+  simp only [List.nil_append, List.drop_zero] at h1 h2 h3
+  rw [hst]
+  unfold chatOnceV
+  rw [chatOnce_ok_snoc]
+  by_cases hp : (parse (texts (init ++ [l]))).isEmpty = true
+  · have hp' : parse (texts (init ++ [l])) = [] := List.isEmpty_iff.mp hp
+    simp [h1, h2, h3, hp, hp', setIdx]
+  · simp [h1, h2, h3, hp]
+
+/-- the guard holds on F17's split (and `PrefixStable` does not) -/
+example : ParseMonotone parseF17 [nd (pieceA ++ pieceB1), nd pieceB2, fin]
+    ∧ ¬ PrefixStable parseF17 [nd (pieceA ++ pieceB1), nd pieceB2, fin] := by decide
+
 end OllamaVerif.C17
